@@ -2391,6 +2391,8 @@ def _later_adds(fn: ast.AST, name: str) -> list[ast.Call] | None:
     for n in ast.walk(fn):
         if isinstance(n, ast.Call) and isinstance(n.func, ast.Attribute) and isinstance(n.func.value, ast.Name) and n.func.value.id == name:
             if n.func.attr == "add" and len(n.args) == 1 and not n.keywords:
+                if any(isinstance(a, (ast.For, ast.AsyncFor, ast.While, *_COMPS)) for a in ancestors(n)):
+                    return None  # filled in a loop (a visited set): not a fixed set with a few extra nodes
                 out.append(n)
             elif n.func.attr in (_GROW | _SHRINK):
                 return None
